@@ -1,5 +1,5 @@
 From Coq Require Import Extraction ExtrOcamlBasic NArith ZArith.
-From LTV.C05 Require Import Model.
+From LTV.C05 Require Import Model Proofs.
 Set Extraction Optimize.
 Extraction Language OCaml.
-Extraction "extracted/c05_model.ml" run step init stream ew_fuel wire n_pieces piece_size is_valid_piece Z.of_N.
+Extraction "extracted/c05_model.ml" run step init stream ew_fuel wire n_pieces piece_size is_valid_piece node_quota params_ok Z.of_N.
